@@ -40,7 +40,8 @@ def run(tier: str, seed: int) -> int:
             continue
         if N ** D > 5000:
             continue
-        for L in (1.0, 2 * np.pi, float(rng.uniform(0.3, 20))):
+        # domain extents over many decades: the symbols scale like (2 pi / L)^order, from 1e-20 to 1e+15 over this list
+        for L in (1.0, 2 * np.pi, float(rng.uniform(0.3, 20)), 2.5e3 * float(rng.uniform(1, 2)), 1e5, 1e-3):
             omega = 2 * np.pi / L
             mj = 4 if N > 35 else 6          # the large 1D tables carry orders <= 4 (k^6 leaves TLC's 32-bit integers)
             S = sym_arrays(D, N, table, omega, maxj=mj)
